@@ -217,7 +217,15 @@ func normalizeToIntString(n numberParts) (string, bool) {
 		// unnecessarily constructing a large byte slice that may simply fail
 		// later on.
 		const maxDigits = 20 // Max uint64 value has 20 decimal digits.
-		if intpSize+exp > maxDigits {
+		// Leading zeros of a fraction without an integer part (e.g., 0.01e21)
+		// do not contribute to the number of resulting digits.
+		leadingZeros := 0
+		if intpSize == 0 {
+			for leadingZeros < fracSize && n.frac[leadingZeros] == '0' {
+				leadingZeros++
+			}
+		}
+		if intpSize+exp-leadingZeros > maxDigits {
 			return "", false
 		}
 
